@@ -106,7 +106,7 @@ Fixpoint tasks_of (o : opts) (t : td) (p : path) {struct t} : list task :=
   | TCls c inner =>
       TWrite p (Ok [(FMeta, CJson (JObj [("_type", JStr c)]))]) [] :: tasks_of o inner (p ++ ["_tensordict"])
   | NData bs pl => [TWrite p (ndata_files bs pl []) (if is_json_serializable pl then [FOther] else [])]
-  | NStack _ => [TWrite p (nstack_files (List.length (stack_bs t)) (tolist t) []) []]
+  | NStack _ => [TWrite p (nstack_files (stack_ndim t) (tolist t) []) []]
   end.
 
 (* ---- what the calling thread does itself: directories of TensorDict / tensorclass / NonTensorData nodes, and, for an
